@@ -70,9 +70,10 @@ func genC18(ref core.CaseRef, r *rand.Rand) *c18Batch {
 			b.BlockMs = 2
 		}
 	}
-	if ref.Index%11 == 7 || q.Name == "direct_vpanic" {
+	if ref.Index%11 == 7 || q.Name == "direct_vpanic" || (ref.Index%5 == 1 && (q.Name == "counting" || q.Name == "global" || q.Name == "direct")) {
 		b.Mode = "survival"
 		b.Strategy = "block"
+		b.BlockMs = 0 // block without a timeout never drops, so every surviving row is owed to the recorder
 		if b.Sink != "fast" {
 			// (a sink that re-emits into a full bounded queue under block-without-timeout cannot be satisfied)
 			b.Sink = "panicking"
@@ -205,11 +206,16 @@ func childC18(ctx *core.Ctx, raw []byte) {
 	doRelease := func() { releaseOnce.Do(func() { close(release) }) }
 	var delivered sync.Map // id -> true (survival / flush)
 	var nDelivered int64
+	var recorderRows int64 // result rows seen by the synchronous recorder sink
+	var panicCalls int64
 	enter := func(name string, batch []map[string]any) {
 		atomic.AddInt64(&sinkCalls, 1)
 		if atomic.LoadInt32(&stopped) == 1 {
 			atomic.AddInt64(&sinkAfterStop, 1)
 			afterStopDetail.Store(fmt.Sprintf("sink %s invoked with %d rows after Stop() had returned", name, len(batch)))
+		}
+		if name == "sync-recorder" {
+			atomic.AddInt64(&recorderRows, int64(len(batch)))
 		}
 		for _, row := range batch {
 			atomic.AddInt64(&nDelivered, 1)
@@ -227,6 +233,9 @@ func childC18(ctx *core.Ctx, raw []byte) {
 			case "slow":
 				time.Sleep(300 * time.Microsecond)
 			case "panicking":
+				if atomic.AddInt64(&panicCalls, 1)%3 == 0 {
+					panic("sink panic (every third invocation)")
+				}
 				for _, row := range batch {
 					if v, ok := toF(row["v"]); ok && v == 667 {
 						panic("sink marker panic")
@@ -246,6 +255,13 @@ func childC18(ctx *core.Ctx, raw []byte) {
 	}
 	s.AddSyncSink(mkSink("fast", "sync-recorder"))
 	asyncKind := b.Sink
+	if b.Sink == "panicking" {
+		// slow asynchronous sinks in front of the panicking one keep the two sink workers and their queue busy,
+		// so some of the panicking sink's invocations are dispatched while the pool is saturated
+		for k := 1; k <= 3; k++ {
+			s.AddSink(mkSink("slow", fmt.Sprintf("async-slow-%d", k)))
+		}
+	}
 	s.AddSink(mkSink(asyncKind, "async-"+asyncKind))
 	if b.Sink == "panicking" || b.Sink == "reentrant" {
 		s.AddSyncSink(mkSink(b.Sink, "sync-"+b.Sink))
@@ -266,7 +282,7 @@ func childC18(ctx *core.Ctx, raw []byte) {
 		s.Stop() // the instance created above is not used: this mode runs several short-lived instances
 		c18SyncStop(ctx, &b, viol)
 	case "survival":
-		c18Survival(ctx, &b, s, viol, &delivered)
+		c18Survival(ctx, &b, s, viol, &delivered, &recorderRows)
 	case "flush":
 		c18Flush(ctx, &b, s, viol, &nDelivered, &stopped)
 	default:
@@ -430,7 +446,7 @@ func childC18(ctx *core.Ctx, raw []byte) {
 }
 
 // c18Survival: a panicking row (custom function) and a panicking sink must not stop later rows.
-func c18Survival(ctx *core.Ctx, b *c18Batch, s *streamsql.Streamsql, viol func(string, string), delivered *sync.Map) {
+func c18Survival(ctx *core.Ctx, b *c18Batch, s *streamsql.Streamsql, viol func(string, string), delivered *sync.Map, recorderRows *int64) {
 	direct := !s.IsAggregationQuery() && !s.IsCEPQuery()
 	n := 300
 	marker := map[int]bool{40: true, 41: true, 150: true}
@@ -453,7 +469,29 @@ func c18Survival(ctx *core.Ctx, b *c18Batch, s *streamsql.Streamsql, viol func(s
 		}()
 	}
 	if !direct {
-		// windowed queries: only "no panic reaches the caller and the instance keeps delivering" is checked
+		// windowed queries: no panic reaches the caller, and the instance keeps delivering: for the two window
+		// kinds whose results follow from the rows alone (block strategy without a timeout never drops) every
+		// result is owed to the recorder sink although the sinks next to it keep panicking
+		owed := int64(0)
+		switch b.Query {
+		case "counting":
+			owed = 3 * int64(n/3/3) // CountingWindow(3), three keys with n/3 rows each
+		case "global":
+			owed = 3 * int64(n/3/4) // fires at count(*) >= 4
+		}
+		if owed > 0 {
+			deadline := time.Now().Add(20 * time.Second)
+			for atomic.LoadInt64(recorderRows) < owed && time.Now().Before(deadline) {
+				time.Sleep(5 * time.Millisecond)
+			}
+			if got := atomic.LoadInt64(recorderRows); got != owed {
+				time.Sleep(300 * time.Millisecond)
+				if got = atomic.LoadInt64(recorderRows); got != owed {
+					viol("lifecycle.results_stop_after_sink_panic", fmt.Sprintf("%s query: %d results are owed to the recorder sink for %d rows, %d arrived while neighbouring sinks kept panicking (engine idle for 20 s)", b.Query, owed, n, got))
+				}
+			}
+			ctx.Count("survival_window_results_checked", owed)
+		}
 		time.Sleep(150 * time.Millisecond)
 		got := 0
 		delivered.Range(func(_, _ any) bool { got++; return true })
